@@ -199,10 +199,6 @@ func init() {
 		x.writeComp(st, certIssuerPrefix, SStr, ref, x.bytesContent(st, x.payloadBytes(c.Args[4])))
 		return []Outcome{{St: st, Res: []Val{out, nilErr()}}, {St: fail, Res: []Val{scalar(IntT(0), bt), fe}}}
 	})
-	reg(x5+".NewCertPool", func(x *Exec, st *State, c *CallCtx) []Outcome {
-		r := x.alloc(st)
-		return one(st, scalar(r, c.ResT.At(0).Type()))
-	})
 
 	kp := "iface:nodeenrollment.X25519KeyProducer."
 	reg(kp+"X25519EncryptionKey", func(x *Exec, st *State, c *CallCtx) []Outcome {
@@ -391,4 +387,81 @@ func init() {
 		key := x.readComp(st, hmacKeyPrefix, SStr, app("payl", SInt, c.Args[0].T))
 		return one(st, x.newBytes(st, app("hmacSum", SStr, key, x.bc(st, c.Args[1])), c.ResT.At(0).Type()))
 	})
+}
+
+// (*x509.Certificate).Verify(opts): an uninterpreted relation of the leaf, the
+// root pool and the DNS name of the options (TRUSTED: chain building, validity
+// windows and key usages of crypto/x509 are not modelled; the KeyUsages and
+// CurrentTime fields of the options are not part of the relation).
+func init() {
+	reg("(*crypto/x509.Certificate).Verify", func(x *Exec, st *State, c *CallCtx) []Outcome {
+		x.ufun("x509Verifies", []string{SInt, SInt, SStr}, SBool)
+		leaf, vo := c.Args[0], c.Args[1]
+		roots, dns := IntT(0), StrT("")
+		if vo.K == VStruct {
+			for i, f := range structFields(vo.GoT) {
+				switch f.Name() {
+				case "Roots":
+					roots = vo.Parts[i].T
+				case "DNSName":
+					dns = vo.Parts[i].T
+				}
+			}
+		}
+		ok := app("x509Verifies", SBool, leaf.T, roots, dns)
+		fail, fe := x.errFork(st, "x509verify")
+		fail.assume(Not(ok))
+		st.assume(ok)
+		ct := c.ResT.At(0).Type()
+		chains := x.symValue(st, "chains", ct, false)
+		x.bumpForVal(st, chains)
+		return []Outcome{{St: st, Res: []Val{chains, nilErr()}}, {St: fail, Res: []Val{zeroVal(ct), fe}}}
+	})
+}
+
+// x509.CertPool as a ghost set of certificate objects:
+//
+//	CP!has : pool -> (Array Int Bool)
+//
+// NewCertPool: empty; AddCert(c): adds c. (TRUSTED: what Verify does with the
+// pool is inside crypto/x509.) Spec: poolHas(pool, cert).
+const cpHas = "CP!has"
+
+var cpSort = arrSort(SInt, arrSort(SInt, SBool))
+
+func (x *Exec) cpRegister() {
+	if _, ok := prefixRegistry["CP"]; !ok {
+		prefixRegistry["CP"] = [][2]string{{cpHas, cpSort}}
+	}
+}
+
+func init() {
+	reg("crypto/x509.NewCertPool", func(x *Exec, st *State, c *CallCtx) []Outcome {
+		x.cpRegister()
+		r := x.alloc(st)
+		inner := arrSort(SInt, SBool)
+		a := x.heapCur(st, cpHas, cpSort)
+		x.heapSet(st, cpHas, StoreT(a, r, Term{"((as const " + inner + ") false)", inner}))
+		return one(st, scalar(r, c.ResT.At(0).Type()))
+	})
+	reg("(*crypto/x509.CertPool).AddCert", func(x *Exec, st *State, c *CallCtx) []Outcome {
+		x.cpRegister()
+		pool, cert := c.Args[0].T, c.Args[1].T
+		if x.nopanicActive(c.Fr) {
+			x.oblige(st, x.obName(c.Fr, "panic.nil.AddCert."+c.Site), Neq(cert, IntT(0)), "prove")
+		}
+		st.assume(Neq(cert, IntT(0)))
+		inner := arrSort(SInt, SBool)
+		a := x.heapCur(st, cpHas, cpSort)
+		x.heapSet(st, cpHas, StoreT(a, pool, StoreT(Select(a, pool, inner), cert, BoolT(true))))
+		if !st.Fresh[pool.S] {
+			st.Dirty[cpHas] = true
+		}
+		return one(st)
+	})
+}
+
+func (x *Exec) poolHas(st *State, pool, cert Term) Term {
+	x.cpRegister()
+	return Select(Select(x.heapCur(st, cpHas, cpSort), pool, arrSort(SInt, SBool)), cert, SBool)
 }
